@@ -252,6 +252,21 @@ Theorem parameter_ids_distinct : (forall p, cparam_of_id (cparam_id p) = Some p)
 Proof. exact (conj cparam_of_id_id dparam_of_id_id). Qed.
 Print Assumptions parameter_ids_distinct.
 
+(* ---- fresh objects; finding F22 (fixed by 32f35e7) kept as the refutation for the old static initialisation ---- *)
+Theorem fresh_objects_hold_defaults :
+  (forall o, c_params (cctx_new o) = cparams_default) /\ w_p world_new = cparams_default
+  /\ (forall o, c_params (get_c world_new o) = cparams_default)
+  /\ (forall o, dparams_of (get_d world_new o) = [0; 2 ^ z_ZSTD_WINDOWLOG_LIMIT_DEFAULT + 1; 0; 0; 0; 0; 0]).
+Proof. exact fresh_objects_hold_defaults_l. Qed.
+Print Assumptions fresh_objects_hold_defaults.
+
+Theorem static_cctx_fresh_params_refuted :
+  c_params (cctx_new_prefix true) C_contentSizeFlag <> cparams_default C_contentSizeFlag
+  /\ c_params (cctx_new_prefix true) C_compressionLevel <> cparams_default C_compressionLevel
+  /\ c_params (fst (cctx_reset (cctx_new_prefix true) z_ZSTD_reset_parameters)) = cparams_default.
+Proof. exact static_cctx_fresh_params_refuted_l. Qed.
+Print Assumptions static_cctx_fresh_params_refuted.
+
 (* ---- finding F2 (fixed by 8508394), kept as the refutation of the invariant for the old code ---- *)
 Theorem rsyncable_clamp_refuted :
   exists v s', ~ in_cbounds C_rsyncable v
